@@ -16,7 +16,7 @@ RULE = (
     "empty reference (error case), x maxDifference m in {0.001,0.05,0.125,0.5}; alignBoundariesAcrossTiers over textgrids built the "
     "same way; morph: pairs of interval tiers with equal entry counts (adjacent intervals, gaps, trailing gap) x filter in "
     "{None, label=='a', label=='b'}, unequal counts as error case. Oracle: per timestamp the nearest reference distance d decides: "
-    "d < m(1-1e-12) -> must equal a nearest reference value, d > m(1+1e-12) -> unchanged, else either; count/labels/order kept; "
+    "d < m(1-1e-12) or d == m exactly -> must equal a nearest reference value, d > m(1+1e-12) -> unchanged, else either; count/labels/order kept; "
     "a raised praatio error is accepted only if some interval can collapse; morph against an exact-rational model of the "
     "statement. Non-trivial: at least one timestamp moves and one stays (dejitter/align), or a selected interval changes duration (morph)."
 )
@@ -25,7 +25,7 @@ ASSUMPTIONS = [
     "alignBoundariesAcrossTiers' documented ArgumentError guard (reference timestamps closer than maxDifference) is accepted whenever two consecutive reference timestamps are closer than maxDifference",
     "morph tolerance: 8 ulp per interval of the largest timestamp involved",
 ]
-REQUIRED_CLASSES = ["dejitter:moved", "dejitter:exactly_maxdiff", "dejitter:equidistant", "dejitter:stays", "morph:adjacent_decimal",
+REQUIRED_CLASSES = ["dejitter:moved", "dejitter:exactly_maxdiff_must_move", "morph:empty_label_selected", "dejitter:equidistant", "dejitter:stays", "morph:adjacent_decimal",
                     "dejitter:collapse_rejected", "align:moved"]
 
 REL = Fraction(1, 10**12)
@@ -36,8 +36,10 @@ def allowed_values(t, refs, m):
     t_, m_ = Fraction(t), Fraction(m)
     d = min(abs(Fraction(r) - t_) for r in refs)
     nearest = {r for r in refs if abs(Fraction(r) - t_) == d}
-    if d < m_ * (1 - REL):
-        return set(nearest), ("moved" if d > 0 else "already_on_ref"), len(nearest) > 1
+    if d < m_ * (1 - REL) or d == m_:
+        # 'within maxDifference' includes a distance of exactly maxDifference (exact on the dyadic grid)
+        cls = "already_on_ref" if d == 0 else ("exactly_maxdiff_must_move" if d == m_ else "moved")
+        return set(nearest), cls, len(nearest) > 1
     if d > m_ * (1 + REL):
         return {t}, "stays", False
     return set(nearest) | {t}, "exactly_maxdiff", len(nearest) > 1
@@ -127,6 +129,8 @@ def run_dejitter(case):
     cl = check_dejitter_result(spec, refs, m, snap, what)
     if (snap["name"], snap["minT"]) != (b0["name"], b0["minT"]):
         pass
+    if "exactly_maxdiff_must_move" in cl:
+        cl.add("moved")
     return {"classes": sorted(cl), "nontrivial": "moved" in cl and "stays" in cl}
 
 
@@ -233,6 +237,8 @@ def run_morph(case):
                   for s, t in zip(A["entries"], B["entries"]))
     if changed:
         cl.add("duration_changed")
+    if any(s[2] == "" and (flt is None) for s in A["entries"]):
+        cl.add("empty_label_selected")
     return {"classes": sorted(cl), "nontrivial": changed}
 
 
@@ -303,7 +309,7 @@ def align_cases(draw):
 @st.composite
 def morph_cases(draw):
     style = draw(gen.STYLES_ARITH)
-    A = draw(gen.interval_tier(style=style, label=gen.AB, max_segments=7))
+    A = draw(gen.interval_tier(style=style, label=st.sampled_from(["a", "b", "a", "b", ""]), max_segments=7))
     n = len(A["entries"])
     if draw(st.integers(0, 9)) == 0:
         B = draw(gen.interval_tier(style=style, label=gen.AB, max_segments=7))
